@@ -31,6 +31,8 @@ def run(ctx, chk):
     chk.cfgs["full"] = fb.hashes
     chk.rule("S1", "send loop: offset = running count, zero-byte send terminates, only SocketRetry re-iterates; senders compare count with total")
     chk.rule("S2", "receive loop: same shape; descriptors kept only from the first chunk")
+    chk.rule("S7", "the byte count returned by a receive primitive is never discarded by its caller")
+    chk.rule("S8", "a receive that returns 0 bytes (end of stream) leaves every receive loop")
     chk.rule("S3", "header/body receivers classify 0 bytes / short / invalid correctly")
     chk.rule("S4", "errno -> error class table equals the reference")
     chk.rule("S5", "request bodies are read by a looping receiver; a short body is an error")
@@ -40,6 +42,7 @@ def run(ctx, chk):
     s4(fb, chk)
     s5(fb, chk)
     s6(fb, chk)
+    s7s8(fb, chk)
     n = lambda r: len([i for i in chk.instances if i[0] == r])
     chk.floor("S1", n("S1"), 7)
     chk.floor("S2", n("S2"), 4)
@@ -114,6 +117,143 @@ def loop_shape(fb, chk, rule, f, inner_name, counter_desc):
     return m, bb, call
 
 
+RECV_PRIMS = ("recv_with_fds", "recv_into_iovec", "recv_into_iovec_all", "recv_data", "recv_into_bufs")
+
+
+def recv_sites(fb):
+    """(fn, bb, call terminator, callee) for every call of a receive primitive that returns a byte count first."""
+    out = []
+    for f in fb.fns.values():
+        if f.crate != "vhost" or "vhost_user" not in (f.file or "") or "/tests" in (f.file or ""):
+            continue
+        if f.rec.get("test"):
+            continue
+        for bb, t in f.calls():
+            c = callee_of(t)
+            if c is None or c.get("name") not in RECV_PRIMS:
+                continue
+            dty = t.get("dty") or ""
+            if "(usize," not in dty.replace(" ", "")[:80] and not dty.replace(" ", "").startswith("std::result::Result<(usize,"):
+                continue
+            out.append((f, bb, t, c))
+    return out
+
+
+def _payload_of(term, call):
+    """term is `call` possibly under unwrap / `?` payload projections."""
+    t = term
+    for _ in range(6):
+        if t[0] == "call" and server.same_call(t, call):
+            return True
+        if t[0] in ("unwrap", "down", "deref", "ref") or (t[0] == "field" and t[2] in ("0",) and t[1][0] in ("down",)):
+            t = t[1]
+            continue
+        return False
+    return False
+
+
+def count_uses(f, m, bb):
+    """Blocks/terms where the count component (.0) of the receive at bb is read."""
+    call = m.sym.call_at(bb)
+    uses = []
+    for l in range(len(f.locals)):
+        for d in m.sym.defs.get(l, []):
+            if d[0] != "assign":
+                continue
+            try:
+                t = m.sym.rvalue(d[3])
+            except RecursionError:
+                continue
+            if t[0] == "field" and t[2] == "0" and _payload_of(t[1], call):
+                uses.append((l, d[1], t))
+    return call, uses
+
+
+def s7s8(fb, chk):
+    rs = recv_sites(fb)
+    n7 = n8 = 0
+    for f, bb, t, c in rs:
+        if f.name in ("recv_into_iovec",) and c.get("name") == "recv_with_fds" and False:
+            continue
+        m = must_of(fb, f)
+        call, uses = count_uses(f, m, bb)
+        key = "%s:%s" % (f.short, c.get("name"))
+        n7 += 1
+        chk.check(bool(uses), "S7", key, "count component read by the caller",
+                  "%s drops the number of bytes received by %s (a short read can no longer be told from a complete one)"
+                  % (f.short, c.get("name")), f.loc(t["line"]))
+        # S8: receive inside a loop
+        cfg = m.cfg
+        inloop = None
+        for (tail, head) in cfg.back_edges():
+            body = {head, tail}
+            work = [tail]
+            while work:
+                x = work.pop()
+                if x == head:
+                    continue
+                for p_ in cfg.pred[x]:
+                    if p_ not in body:
+                        body.add(p_)
+                        work.append(p_)
+            if bb in body and (inloop is None or len(body) < len(inloop[1])):
+                inloop = (head, body)
+        if inloop is None:
+            continue
+        head, body = inloop
+        n8 += 1
+        cl = {l for l, _b, _t in uses}
+        found = False
+        bad = []
+        for d in sorted(body):
+            term = cfg.blocks[d]["term"]
+            if term["k"] != "switch":
+                continue
+            for sx in cfg.succ[d]:
+                atoms = m.edge_atoms(d, sx)
+                z = False
+                for a in atoms:
+                    if a[0] == "cmp" and a[1] == "Eq" and a[3][0] == "const" and a[3][1] == 0 and _is_count(a[2], call):
+                        z = True
+                    if a[0] == "in" and not a[3] and set(a[2]) == {0} and _is_count(a[1], call):
+                        z = True
+                if not z:
+                    continue
+                found = True
+                # from sx the loop head must not be reachable inside the loop
+                inside = cfg.reach(sx, removed=set(range(len(cfg.blocks))) - body) | {sx}
+                if sx in body and head in inside:
+                    bad.append(d)
+        chk.check(found and not bad, "S8", key, "0 bytes => the loop is left",
+                  "%s: after %s returned 0 bytes the receive loop %s (the stream has ended: iterating again never terminates)"
+                  % (f.short, c.get("name"), "can be re-entered" if found else "has no zero-byte test"), f.loc(t["line"]))
+    chk.floor("S7", n7, 4)
+    chk.floor("S8", n8, 2)
+
+
+def _is_count(t, call):
+    while t[0] == "cast":
+        t = t[1]
+    return t[0] == "field" and t[2] == "0" and _payload_of(t[1], call)
+
+
+def _accumulates(m, term, call):
+    """term is a local that is (re)defined by adding the byte count returned by `call` to itself."""
+    if term[0] != "phi":
+        return False
+    for d in m.sym.defs.get(term[1], []):
+        if d[0] != "assign":
+            continue
+        rv = d[3]
+        t = m.sym.rvalue(rv)
+        # (count, overflow) tuples of checked adds appear as bin Add / AddWithOverflow .0
+        for s in subterms(t):
+            if s[0] == "bin" and s[1] in ("Add", "AddWithOverflow"):
+                if any(server.same_call(x, call) for side in (s[2], s[3]) for x in subterms(side) if x[0] == "call"):
+                    return True
+    return False
+
+
 def loops(fb, chk):
     ep = endpoint_fns(fb)
     f = ep.get("send_iovec_all")
@@ -140,11 +280,15 @@ def loops(fb, chk):
                     if any(server.same_call(s, call) for s in subterms(term) if s[0] == "call"):
                         atoms = m.atoms_at(d[1])
                         z = [a for a in atoms if a[0] == "cmp" and a[1] == "Eq" and a[3][0] == "const" and a[3][1] == 0]
-                        if z:
+                        # the tested quantity must be the running byte count: the local that accumulates the
+                        # byte counts returned by the receive call (not a chunk index or any other counter)
+                        zc = [a for a in z if _accumulates(m, a[2], call)]
+                        if zc:
                             good = True
-                            detail = "files assigned under %s == 0" % [show(a[2])[:40] for a in z]
+                            detail = "files assigned under %s == 0" % [show(a[2])[:40] for a in zc]
                         elif not good:
-                            detail = "files assigned without a zero test on the running count"
+                            detail = "files assigned without a zero test on the running byte count" + \
+                                (" (tested instead: %s)" % [show(a[2])[:40] for a in z] if z else "")
             chk.check(good, "S2", "recv_into_iovec_all:fds", detail or "descriptors kept only when nothing was read before",
                       "descriptors of later chunks can replace those of the first chunk (%s)" % detail, g.loc())
     # senders compare the count with the total
